@@ -30,6 +30,8 @@ returns only after every command has finished  | `exit_after_all`, `return_after
 nothing happens after the return               | `final_is_end`                     | `G.final_only_late` (only late wake-up calls), `G.final_is_end` |
 no lost completion notification / no deadlock  | `progress`, `progress_enabled`, `stuck_is_final` | `G.progress`, `G.progress_enabled`, `G.stuck_is_final` |
 pdsh ends                                      | `rank_decreases`, `steps_bounded`  | `G.rank_decreases`, `G.steps_bounded` (≤ 18n + 13 + 3k steps with k spurious wake-ups, late calls included) |
+... or stops LOUDLY when a worker cannot be created | (every discipline, `Dsh/FanX.lean`: `pthread_create` failure and the RLIMIT_NOFILE prologue as transitions) `X.all_once_or_loud_exit`, `X.once_only`, `X.exit_is_end`, `X.progress` |
+the worker's read loop is left only at EOF of both streams, everything read and written | (no longer a guard of the composition) `EndToEnd.returns_after_output_delivered_poll` over `Dsh/FanPoll.lean` = protocol × `pollStep` of C05; the guard of `destroyBegin` is the code's loop condition; imports `Relay/Poll.pollRun_inv` (C05 `poll_loop_left_only_at_eof_of_both`, `worker_done_has_delivered_everything`) |
 
 The trace acceptor (`Driver/FanDrv.lean`, `pdshmodel fan`) runs `FanG.step`; it maps an observed call to a label
 by what the call does in the state it is made in (an unlock before the wake-up call is `unlockFirst`, a signal or
@@ -43,9 +45,15 @@ generated over {0, 1, 2, ≥ 3} (harness key `lowfds`, pinned cases in every run
 `pdsh -R exec` with descriptor 0 closed.
 
 Not proved here: that dsh.c refines the LTS (trace correspondence of `checks/c03.py`: every run's projected trace is
-replayed through `FanG.step`, incl. the pdcp worker `_rcp_thread`); fairness of the real scheduler; workers whose
-command never ends (C07: `immortal_never_returns`), `pthread_create` failure and cancellation (^C^Z, C20) are
-outside these models; fanout 0 (the dispatcher then waits forever: C18).  The composed LTS of `EndToEnd` is tied to
+replayed through `FanG.step` -- outside relay mode through `FanX.step`, which wraps it: the pinned `createfail` runs
+(worker i's first `pthread_create` returns EAGAIN, i = 0..2, fanout 1..3, with and without -k) and the `nofile` /
+`nofile_soft` runs (`_increase_nofile_limit` as a function: fanout in use and soft limit reported by the harness and
+compared with `FanX.increaseNofile`) included --, incl. the pdcp worker `_rcp_thread`); fairness of the real scheduler;
+workers whose command never ends (C07: `immortal_never_returns`) and cancellation (^C^Z, C20) are outside these
+models; that `-k` really reaches the running commands when a create fails (`termSent` is the call of `_fwd_signal`,
+monitors only); fanout 0 (the dispatcher then waits forever: C18).  `FanPoll` (the loop as code) is not under a trace
+acceptor of its own: its worker component IS C05's `pollStep` (differential execution in checks/c05.py), its protocol
+component IS `FanG.step`; the acceptor's relay mode keeps running the per-stream composition `FanRelay`.  The composed LTS of `EndToEnd` is tied to
 dsh.c the same way: runs whose reads / closes are logged go through `FanRelay.step` (relay mode of `pdshmodel fan`:
 a read outside the worker's loop, or a worker leaving its loop before its polled streams are over, is rejected);
 what the relay writes for given chunks is C05's correspondence; a worker that gives up on its host at a timeout is
